@@ -1,0 +1,115 @@
+//go:build verif
+
+package mqtt
+
+// Contracts for RetryClient (C01, C03, C08, C12, C17, C18). Comments only; see verif_contracts_codec.go.
+
+// ---- guard table (C10) ----
+//@ guard RetryClient.cli by mu
+//@ guard RetryClient.chConnectErr by mu
+//@ guard RetryClient.chConnSwitch by mu
+//@ guard RetryClient.handler by mu
+//@ guard RetryClient.stopped by mu
+//@ guard RetryClient.taskQueue by mu
+//@ guard RetryClient.stats by muStats
+//@ guard firstError.err by mu
+// confined to the task goroutine (only functions reachable from the task loop touch them)
+//@ guard RetryClient.retryQueue role task
+//@ guard RetryClient.subEstablished role task
+//@ guard RetryClient.newRetryByError role task
+
+// the per-client connect-result channel is closed by RetryClient.Connect only
+//@ closer RetryClient.chConnectErr (*RetryClient).Connect
+
+//@ spec
+//@ type taskFn = func(ctx context.Context, cli *BaseClient)
+//@ end
+
+//@ func (*RetryClient).pushTask
+//@   mode int
+//@   props C01 C03
+//@   requires c != nil && task != nil
+//@   assigns nothing
+//@   ensures[C01,C03] stopped: guardVal(&c.stopped) ==> result == ErrClosedClient && sameSlice(c.taskQueue, guardVal(&c.taskQueue))
+//@   ensures[C01,C03] pushed: !guardVal(&c.stopped) ==> result == nil && len(c.taskQueue) == ssLen(guardSlice(&c.taskQueue))+1 &&
+//@        forall(0, ssLen(guardSlice(&c.taskQueue)), func(i int) bool { return sameFunc(c.taskQueue[i], ssAt(guardSlice(&c.taskQueue), i)) }) &&
+//@        sameFunc(c.taskQueue[len(c.taskQueue)-1], task)
+//@   ensures[C11] nonblocking: evCount("recv") == 0 && evCount("send") == 0
+
+//@ func (*RetryClient).Publish
+//@   mode int
+//@   props C01 C03 C05
+//@   requires c != nil && message != nil && ctx != nil
+//@   requires !c.DirectlyPublishQoS0
+//@   note the statement is for the default (queued) publishing mode
+//@   assigns nothing
+//@   ensures[C01,C03] accepted: result == nil ==> evCount("(*RetryClient).pushTask") == 1 &&
+//@        closureIs(evArg[taskFn]("(*RetryClient).pushTask", 0, 2), "(*RetryClient).Publish$1") &&
+//@        *closureVar[**Message](evArg[taskFn]("(*RetryClient).pushTask", 0, 2), "(*RetryClient).Publish$1", 1) == message &&
+//@        *closureVar[**RetryClient](evArg[taskFn]("(*RetryClient).pushTask", 0, 2), "(*RetryClient).Publish$1", 0) == c
+//@   ensures[C05] invalid_not_queued: guardVal(&c.cli) != nil && message.QoS > QoS2 ==> result != nil && evCount("(*RetryClient).pushTask") == 0
+
+//@ func (*RetryClient).Publish$1
+//@   mode int
+//@   props C01 C03
+//@   requires c != nil && cli != nil && ctx != nil && message != nil && cli.Transport != nil
+//@   assigns c.retryQueue; c.newRetryByError; message.ID; message.Dup; cli.idLast
+//@   ensures[C01,C03] runs_publish: evCount("(*RetryClient).publish") == 1 && evArg[*BaseClient]("(*RetryClient).publish", 0, 2) == cli &&
+//@        evArg[*Message]("(*RetryClient).publish", 0, 3) == message && evArg[*RetryClient]("(*RetryClient).publish", 0, 0) == c
+
+//@ func (*RetryClient).Subscribe
+//@   mode int
+//@   props C01 C03
+//@   requires c != nil && ctx != nil
+//@   assigns nothing
+//@   ensures[C01,C03] accepted: result1 == nil ==> evCount("(*RetryClient).pushTask") == 1 &&
+//@        closureIs(evArg[taskFn]("(*RetryClient).pushTask", 0, 2), "(*RetryClient).Subscribe$1") &&
+//@        sameSlice(*closureVar[*[]Subscription](evArg[taskFn]("(*RetryClient).pushTask", 0, 2), "(*RetryClient).Subscribe$1", 1), subs) &&
+//@        *closureVar[**RetryClient](evArg[taskFn]("(*RetryClient).pushTask", 0, 2), "(*RetryClient).Subscribe$1", 0) == c
+
+//@ func (*RetryClient).Unsubscribe
+//@   mode int
+//@   props C01 C03
+//@   requires c != nil && ctx != nil
+//@   assigns nothing
+//@   ensures[C01,C03] accepted: result == nil ==> evCount("(*RetryClient).pushTask") == 1 &&
+//@        closureIs(evArg[taskFn]("(*RetryClient).pushTask", 0, 2), "(*RetryClient).Unsubscribe$1") &&
+//@        sameSlice(*closureVar[*[]string](evArg[taskFn]("(*RetryClient).pushTask", 0, 2), "(*RetryClient).Unsubscribe$1", 1), topics) &&
+//@        *closureVar[**RetryClient](evArg[taskFn]("(*RetryClient).pushTask", 0, 2), "(*RetryClient).Unsubscribe$1", 0) == c
+
+//@ func (*RetryClient).requestContext
+//@   mode int
+//@   props C18
+//@   pure
+//@   requires c != nil && ctx != nil
+//@   ensures[C18] no_timeout: c.ResponseTimeout == 0 ==> result0 == ctx
+//@   ensures[C18] timeout: c.ResponseTimeout != 0 ==> result0 != nil && evCount("context.WithTimeout") == 1 &&
+//@        evArg[context.Context]("context.WithTimeout", 0, 0) == ctx && evArg[time.Duration]("context.WithTimeout", 0, 1) == c.ResponseTimeout
+//@   ensures[C18] result1 != nil
+
+//@ func (*RetryClient).Handle
+//@   mode int
+//@   props C17
+//@   requires c != nil
+//@   assigns nothing
+//@   ensures[C17] stored: c.handler == handler
+//@   ensures[C17] forwarded: guardVal(&c.cli) != nil ==> evCount("(*BaseClient).Handle") == 1 && evArg[*BaseClient]("(*BaseClient).Handle", 0, 0) == guardVal(&c.cli) &&
+//@        evArg[Handler]("(*BaseClient).Handle", 0, 1) == handler
+
+//@ func (*RetryClient).Connect
+//@   mode int
+//@   props C09 C17
+//@   ovfwrap
+//@   requires c != nil && ctx != nil && len(clientID) <= 0xFFFF
+//@   requires forall(0, len(opts), func(i int) bool { return opts[i] != nil })
+//@   note protocol of the Retryer interface: SetClient (with a client that has a transport) is called before Connect
+//@   relies c.cli != nil && c.cli.Transport != nil && c.chConnectErr != nil && !closed(c.chConnectErr)
+//@   note Connect is called once per SetClient: the channel created by SetClient is closed here and nowhere else
+//@   assigns any BaseClient.sig; any BaseClient.connClosed; any BaseClient.idLast; any BaseClient.connState; any BaseClient.err
+//@   ensures[C17] handler_first: evCount("(*BaseClient).Handle") == 1 && evCount("(*BaseClient).Connect") == 1 &&
+//@        evArg[*BaseClient]("(*BaseClient).Handle", 0, 0) == evArg[*BaseClient]("(*BaseClient).Connect", 0, 0) &&
+//@        evArg[Handler]("(*BaseClient).Handle", 0, 1) == guardVal(&c.handler) &&
+//@        evIndex("(*BaseClient).Handle", 0) < evIndex("(*BaseClient).Connect", 0)
+//@   ensures[C09] same_connect: evArg[string]("(*BaseClient).Connect", 0, 2) == clientID && sameSlice(evArg[[]ConnectOption]("(*BaseClient).Connect", 0, 3), opts) &&
+//@        evArg[context.Context]("(*BaseClient).Connect", 0, 1) == ctx
+//@   ensures[C01] signalled: evCount("close") == 1 && evIndex("(*BaseClient).Connect", 0) < evIndex("close", 0)
